@@ -61,6 +61,9 @@ func FormatCSVValue(builder *strings.Builder, value octosql.Value) {
 		builder.WriteString(value.Time.Format(time.RFC3339))
 	case octosql.TypeIDDuration:
 		builder.WriteString(fmt.Sprint(value.Duration))
+	case octosql.TypeIDList, octosql.TypeIDStruct, octosql.TypeIDTuple:
+		// CSV has no nested values; print the textual form in one field.
+		builder.WriteString(value.String())
 	default:
 		panic("invalid value type to print in CSV: " + value.TypeID.String())
 	}
